@@ -401,6 +401,51 @@ def _check_caches(r5, alg: Alg, ev: MatEval, f, v: Val, cname, how):
             r5.violate(PROP, f"{f.qualname}[{cname}]:lower-flag", f"{cname}.{f.name} passes {'a transposed' if transposed else 'the same'} triangular array but {'flips' if flipped else 'keeps'} the lower/upper flag: triangular solves then read the wrong triangle", node=f.node, file=f.file)
 
 
+def rule_lu_typestate(rep, program: Program):
+    """The pair (_lu_and_piv, _lu_transposed) of DenseSquareMatrix: factors computed lazily from
+    the object's own array describe that array untransposed, so wherever the factors may still be
+    missing the flag must be False/None, or the lazy accessor must reset it."""
+    r = rep.rule("R8", "LU cache typestate: a DenseSquareMatrix built with possibly-missing LU factors gets a neutral transposition flag, or the lazy factorisation resets the flag", floor=3)
+    k = program.cls("DenseSquareMatrix")
+    acc = k.methods.get("lu_and_piv")
+    if acc is None:
+        raise AnalysisError("DenseSquareMatrix.lu_and_piv not found")
+    resets = False
+    for n in ast.walk(acc.node):
+        if isinstance(n, ast.If) and "self._lu_and_piv is None" in norm(n.test):
+            fills = any(isinstance(x, ast.Assign) and norm(x.targets[0]) == "self._lu_and_piv" and "lu_factor(self._array" in norm(x.value) for x in n.body)
+            setf = any(isinstance(x, ast.Assign) and norm(x.targets[0]) == "self._lu_transposed" and norm(x.value) == "False" for x in n.body)
+            if fills and setf:
+                resets = True
+    r.inst({"lazy factorisation resets the flag": resets})
+    init = k.methods["__init__"]
+    for fn in program.all_functions():
+        if fn.module.name != "mici.matrices":
+            continue
+        local_from_property = set()
+        for n in ast.walk(fn.node):
+            if isinstance(n, ast.Assign) and len(n.targets) == 1 and isinstance(n.targets[0], ast.Name) and norm(n.value) in ("self.lu_and_piv",):
+                local_from_property.add(n.targets[0].id)
+        for n in ast.walk(fn.node):
+            if not (isinstance(n, ast.Call) and norm(n.func) == "DenseSquareMatrix"):
+                continue
+            args = dict(zip(init.params[1:], n.args))
+            args.update({kw.arg: kw.value for kw in n.keywords})
+            lu, flag = args.get("lu_and_piv"), args.get("lu_transposed")
+            if lu is None or (isinstance(lu, ast.Constant) and lu.value is None):
+                present = "absent"
+            elif (isinstance(lu, ast.Name) and lu.id in local_from_property) or norm(lu) == "self.lu_and_piv" or isinstance(lu, ast.Tuple) or norm(lu) == "self._inv_lu_and_piv":
+                present = "present"
+            else:
+                present = "maybe"
+            neutral = flag is None or (isinstance(flag, ast.Constant) and flag.value in (None, False))
+            ok = present == "present" or neutral or resets
+            r.inst({"site": fn.qualname, "lu argument": norm(lu) if lu is not None else None, "factors": present, "flag": norm(flag) if flag is not None else None})
+            if not ok:
+                r.violate(PROP, f"{fn.qualname}:DenseSquareMatrix({norm(lu)},{norm(flag)})", f"{fn.qualname} builds a DenseSquareMatrix whose LU factors `{norm(lu)}` may still be missing, together with the transposition flag `{norm(flag)}`; the new object then factorises its own array lazily but keeps that flag (the accessor does not reset it), so its inverse solves the transposed system (only when no LU-dependent quantity was evaluated before)", node=n, file=fn.file)
+    return r
+
+
 BLOCK_CLASSES = ["MatrixProduct", "SquareMatrixProduct", "InvertibleMatrixProduct", "SquareBlockDiagonalMatrix", "SymmetricBlockDiagonalMatrix", "PositiveDefiniteBlockDiagonalMatrix", "BlockRowMatrix", "BlockColumnMatrix"]
 
 
@@ -548,5 +593,6 @@ def run(rep, program: Program, tier: str) -> None:
     ]
     rule_algebra(rep, program)
     rule_blocks(rep, program, tier)
+    rule_lu_typestate(rep, program)
     rule_parity(rep, program)
     c08.rule_r4(rep, program, prop=PROP, rule="R6")
